@@ -263,7 +263,19 @@ def random_loop(draw, H, W, min_faces=1):
     return boundary(F)
 
 
-def board(draw, lo=4, hi=7, max_cells=42):
+def board(draw, lo=4, hi=7, max_cells=42, thin=(1, 3, 12, 20), big=None):
+    """board shapes of the large layer: mostly lo..hi per side; some long thin boards (a side of 1-3,
+    the other 12-24: the only boards where runs, sight lines and clue values pass 10 while the solvers
+    stay fast) and some big squares (sides 8..big)"""
+    mode = draw(st.integers(0, 9))
+    if thin and mode <= 2:
+        h = draw(st.integers(thin[0], thin[1]))
+        w = draw(st.integers(thin[2], thin[3]))
+        if draw(st.booleans()):
+            h, w = w, h
+        return h, w
+    if big and mode == 3:
+        return draw(st.integers(8, big)), draw(st.integers(8, big))
     h = draw(st.integers(lo, hi))
     w = draw(st.integers(lo, hi))
     while h * w > max_cells:
@@ -352,7 +364,7 @@ class LAkari(LargeSpec):
     spec = C.Akari()
 
     def make(self, draw):
-        h, w = board(draw, 3, 10, 50)
+        h, w = board(draw, 3, 10, 50, thin=(1, 3, 14, 30), big=10)
         prob = [[-2] * w for _ in range(h)]
         for (y, x) in sparse_cells(draw, h, w, draw(st.sampled_from([5, 8, 12]))):
             prob[y][x] = -1
@@ -662,7 +674,36 @@ class LPutteria(LargeSpec):
     spec = C.Putteria()
 
     def make(self, draw):
-        return dict(inst=self.spec.instance(draw, draw(st.sampled_from([25, 30, 36]))), planted=None)
+        mode = draw(st.integers(0, 3))
+        if mode == 0:
+            return dict(inst=self.spec.instance(draw, draw(st.sampled_from([25, 30, 36]))), planted=None)
+        if mode == 1:
+            # equal slabs: k strips of the same width, so every pair of rooms has the same (large) size
+            k = draw(st.integers(2, 4))
+            m = draw(st.integers(1, 4))
+            h = draw(st.integers(max(3, k), 8)) if m > 1 else draw(st.integers(9, 12))
+            w = k * m
+            rooms = [[(y, x) for y in range(h) for x in range(i * m, (i + 1) * m)] for i in range(k)]
+            if draw(st.booleans()):
+                rooms = [[(x, y) for (y, x) in r] for r in rooms]
+                h, w = w, h
+        else:
+            h, w = board(draw, 4, 7, 42)
+            rooms, _ = base.draw_rooms(draw, st, h, w, (1,))
+            rooms = [list(r) for r in rooms]
+        # independent planting: one number cell per room, greedily, in a random room order
+        num = {}
+        ok = True
+        for i in draw(st.permutations(list(range(len(rooms))))):
+            cands = [c for c in rooms[i]
+                     if not any(q in num for q in neighbors4(c[0], c[1], h, w))
+                     and not any(num[q] == len(rooms[i]) and (q[0] == c[0] or q[1] == c[1]) for q in num)]
+            if not cands:
+                ok = False
+                break
+            num[cands[draw(st.integers(0, len(cands) - 1))]] = len(rooms[i])
+        inst = dict(h=h, w=w, rooms=[[list(c) for c in r] for r in rooms])
+        return dict(inst=inst, planted=[c in num for c in all_cells(h, w)] if ok else None)
 
     def check(self, inst, flat):
         h, w = inst["h"], inst["w"]
@@ -748,8 +789,63 @@ class LHeyawake(LargeSpec):
                 rects.append((y0, x0, y1, x1))
                 x0 = x1
             y0 = y1
-        return dict(inst=dict(h=h, w=w, problem=[list(r) + [-1] for r in rects], rect_form=draw(st.booleans())),
-                    planted=None)
+        if draw(st.integers(0, 2)) == 0:
+            return dict(inst=dict(h=h, w=w, problem=[list(r) + [-1] for r in rects], rect_form=draw(st.booleans())),
+                        planted=None)
+        # independent planting: blacks first (greedy: never adjacent, whites stay connected), then
+        # rectangular rooms cut so that no white run crosses two room borders
+        cells = all_cells(h, w)
+        black = set()
+        for c in draw(st.permutations(cells)):
+            if draw(st.integers(0, 3)) == 0:
+                continue
+            if any(q in black for q in neighbors4(c[0], c[1], h, w)):
+                continue
+            black.add(c)
+            if not connected(set(cells) - black):
+                black.remove(c)
+        white = set(cells) - black
+
+        def runs(line):
+            out, run = [], []
+            for c in line + [None]:
+                if c is not None and c in white:
+                    run.append(c)
+                else:
+                    if run:
+                        out.append(run)
+                    run = []
+            return out
+
+        vruns = [r for x in range(w) for r in runs([(y, x) for y in range(h)])]
+        bounds = []
+        for y in draw(st.permutations(list(range(1, h)))):
+            if draw(st.integers(0, 2)) == 0:
+                continue
+            trial = bounds + [y]
+            if all(sum(1 for b in trial if r[0][0] < b <= r[-1][0]) <= 1 for r in vruns):
+                bounds = trial
+        bounds = [0] + sorted(bounds) + [h]
+        rects = []
+        for y0, y1 in zip(bounds, bounds[1:]):
+            hruns = [r for y in range(y0, y1) for r in runs([(y, x) for x in range(w)])]
+            cuts = []
+            for x in draw(st.permutations(list(range(1, w)))):
+                if draw(st.integers(0, 2)) == 0:
+                    continue
+                trial = cuts + [x]
+                if all(sum(1 for b in trial if r[0][1] < b <= r[-1][1]) <= 1 for r in hruns):
+                    cuts = trial
+            cuts = [0] + sorted(cuts) + [w]
+            for x0, x1 in zip(cuts, cuts[1:]):
+                rects.append((y0, x0, y1, x1))
+        prob = []
+        for (y0, x0, y1, x1) in rects:
+            k = sum(1 for y in range(y0, y1) for x in range(x0, x1) if (y, x) in black)
+            prob.append([y0, x0, y1, x1, k if draw(st.integers(0, 2)) else -1])
+        inst = dict(h=h, w=w, problem=prob, rect_form=draw(st.booleans()))
+        flat = tuple(c in black for c in cells)
+        return dict(inst=inst, planted=list(flat) if self.check(inst, flat) is True else None)
 
     def check(self, inst, flat):
         h, w = inst["h"], inst["w"]
@@ -1022,8 +1118,8 @@ class LSudoku(LargeSpec):
     spec = LA.Sudoku()
 
     def make(self, draw):
-        n = 3
-        size = 9
+        n = 4 if draw(st.integers(0, 3)) == 0 else 3
+        size = n * n
 
         def band_perm():
             bands = list(draw(st.permutations(list(range(n)))))
@@ -1032,7 +1128,8 @@ class LSudoku(LargeSpec):
         rows, cols = band_perm(), band_perm()
         sym = list(draw(st.permutations(list(range(1, size + 1)))))
         g = [[sym[(n * (rows[y] % n) + rows[y] // n + cols[x]) % size] for x in range(size)] for y in range(size)]
-        prob = [[g[y][x] if draw(st.integers(0, 2)) == 0 else 0 for x in range(size)] for y in range(size)]
+        keep = 2 if n == 3 else 9   # 16x16 grids are given almost complete (z3 is slow on open ones)
+        prob = [[g[y][x] if draw(st.integers(0, 9)) <= keep else 0 for x in range(size)] for y in range(size)]
         return dict(inst=dict(n=n, h=size, w=size, problem=prob), planted=[v for r in g for v in r])
 
     def check(self, inst, flat):
@@ -1120,7 +1217,22 @@ class LFillomino(LargeSpec):
     spec = P.Fillomino()
 
     def make(self, draw):
-        h, w = board(draw, 4, 5, 20)
+        if draw(st.booleans()):
+            # independent planting: a partition into few (hence large) rooms, kept when the checker accepts it
+            # (touching rooms of equal size are the usual reason it does not); clues almost everywhere
+            h, w = board(draw, 4, 6, 30, thin=(1, 2, 12, 18))
+            rooms, _ = base.draw_rooms(draw, st, h, w, (1,))
+            size = {c: len(r) for r in rooms for c in r}
+            flat = tuple(size[c] for c in all_cells(h, w))
+            # all cells given, except up to two cells of small regions (z3 needs many minutes as soon as one
+            # cell of a large region is open)
+            hide = {draw(st.integers(0, h * w - 1)) for _ in range(draw(st.integers(0, 2)))}
+            prob = [[0 if y * w + x in hide and size[(y, x)] <= 4 else size[(y, x)] for x in range(w)]
+                    for y in range(h)]
+            inst = dict(h=h, w=w, problem=prob, checkered=False)
+            if self.check(inst, flat) is True:
+                return dict(inst=inst, planted=list(flat))
+        h, w = board(draw, 4, 5, 20, thin=None)
         prob = [[0] * w for _ in range(h)]
         for (y, x) in sparse_cells(draw, h, w, 8):
             prob[y][x] = draw(st.integers(1, 5))
